@@ -642,4 +642,370 @@ theorem segments_split_inner (p' s' : List (V3 K)) (x y P : V3 K) (c : Bool) :
 
 end lists
 
+/-! ### which half of a cut segment carries the closest point -/
+
+theorem closestT_zero_vec (q a v : V3 K) (hv : v.dot v = 0) : closestT q a v = 0 := by
+  obtain ⟨hx, hy, hz⟩ := dot_self_eq_zero hv
+  unfold closestT
+  have h2 : (q - a).dot v = 0 := by simp [V3.dot_def, hx, hy, hz]
+  rw [hv, h2, clampedRatio_zero_den]
+  simp
+
+theorem smul_eq_smul_cancel (a v : V3 K) (s t : K) (h : a + V3.smul s v = a + V3.smul t v) (hne : s ≠ t) :
+    v.dot v = 0 := by
+  have hx := congrArg V3.x h
+  have hy := congrArg V3.y h
+  have hz := congrArg V3.z h
+  simp only [V3.add_x, V3.add_y, V3.add_z, V3.smul_x, V3.smul_y, V3.smul_z] at hx hy hz
+  have hd : s - t ≠ 0 := sub_ne_zero.mpr hne
+  have ex : v.x = 0 := by
+    have : (s - t) * v.x = 0 := by linarith
+    rcases mul_eq_zero.mp this with h | h
+    · exact absurd h hd
+    · exact h
+  have ey : v.y = 0 := by
+    have : (s - t) * v.y = 0 := by linarith
+    rcases mul_eq_zero.mp this with h | h
+    · exact absurd h hd
+    · exact h
+  have ez : v.z = 0 := by
+    have : (s - t) * v.z = 0 := by linarith
+    rcases mul_eq_zero.mp this with h | h
+    · exact absurd h hd
+    · exact h
+  simp [V3.dot_def, ex, ey, ez]
+
+/-- cutting `a b` at `P = a + s (b − a)`: which half has the whole segment's closest point, in terms of the whole
+    segment's parameter `t = closestT q a (b − a)` -/
+theorem split_which (q a b : V3 K) (s : K) (hs0 : 0 ≤ s) (hs1 : s ≤ 1) :
+    (closestT q a (b - a) ≤ s →
+      closestPoint q a ((a + V3.smul s (b - a)) - a) = closestPoint q a (b - a)) ∧
+    (s ≤ closestT q a (b - a) →
+      closestPoint q (a + V3.smul s (b - a)) (b - (a + V3.smul s (b - a))) = closestPoint q a (b - a)) ∧
+    (s < closestT q a (b - a) →
+      (closestPoint q a (b - a) - q).normSq < (closestPoint q a ((a + V3.smul s (b - a)) - a) - q).normSq) ∧
+    (closestT q a (b - a) < s → (b - a).dot (b - a) ≠ 0 →
+      (closestPoint q a (b - a) - q).normSq <
+        (closestPoint q (a + V3.smul s (b - a)) (b - (a + V3.smul s (b - a))) - q).normSq) := by
+  set P := a + V3.smul s (b - a) with hP
+  set t1 := closestT q a (P - a) with ht1
+  set t2 := closestT q P (b - P) with ht2
+  set t := closestT q a (b - a) with ht
+  have ht1m : 0 ≤ t1 ∧ t1 ≤ 1 := clampedRatio_mem _ _
+  have ht2m : 0 ≤ t2 ∧ t2 ≤ 1 := clampedRatio_mem _ _
+  have htm : 0 ≤ t ∧ t ≤ 1 := clampedRatio_mem _ _
+  have e1 : closestPoint q a (P - a) = a + V3.smul (t1 * s) (b - a) := by
+    unfold closestPoint; rw [← ht1, hP]; ext <;> simp <;> ring
+  have e2 : closestPoint q P (b - P) = a + V3.smul (s + t2 * (1 - s)) (b - a) := by
+    unfold closestPoint; rw [← ht2, hP]; ext <;> simp <;> ring
+  have e0 : closestPoint q a (b - a) = a + V3.smul t (b - a) := rfl
+  have r1 : 0 ≤ t1 * s ∧ t1 * s ≤ 1 := ⟨mul_nonneg ht1m.1 hs0, by nlinarith⟩
+  have r2 : 0 ≤ s + t2 * (1 - s) ∧ s + t2 * (1 - s) ≤ 1 := by
+    constructor
+    · nlinarith [mul_nonneg ht2m.1 (sub_nonneg.mpr hs1)]
+    · nlinarith [mul_nonneg (sub_nonneg.mpr ht2m.2) (sub_nonneg.mpr hs1)]
+  obtain ⟨le1, le2, _⟩ := split_segment q a b s hs0 hs1
+  obtain ⟨heq1, heq2⟩ := split_half_eq q a b s hs0 hs1
+  rw [← hP] at le1 le2 heq1 heq2
+  refine ⟨?_, ?_, ?_, ?_⟩
+  · intro hts
+    have hu : ∃ u, 0 ≤ u ∧ u ≤ 1 ∧ a + V3.smul u (P - a) = closestPoint q a (b - a) := by
+      rcases hs0.eq_or_lt with h | h
+      · refine ⟨0, le_refl _, zero_le_one, ?_⟩
+        have ht0 : t = 0 := le_antisymm (by rw [← h] at hts; exact hts) htm.1
+        unfold closestPoint; rw [← ht, ht0]; ext <;> simp
+      · refine ⟨t / s, div_nonneg htm.1 hs0, (div_le_one h).mpr hts, ?_⟩
+        have hne : s ≠ 0 := ne_of_gt h
+        unfold closestPoint; rw [← ht, hP]
+        ext <;> simp <;> field_simp
+    obtain ⟨u, hu0, hu1, hue⟩ := hu
+    have := closestPoint_opt q a (P - a) u hu0 hu1
+    rw [hue] at this
+    exact heq1 this
+  · intro hst
+    have hu : ∃ u, 0 ≤ u ∧ u ≤ 1 ∧ P + V3.smul u (b - P) = closestPoint q a (b - a) := by
+      rcases hs1.eq_or_lt with h | h
+      · refine ⟨0, le_refl _, zero_le_one, ?_⟩
+        have ht0 : t = 1 := le_antisymm htm.2 (by rw [h] at hst; exact hst)
+        unfold closestPoint; rw [← ht, ht0, hP, h]; ext <;> simp
+      · have h1s : 0 < 1 - s := by linarith
+        have hne : 1 - s ≠ 0 := ne_of_gt h1s
+        refine ⟨(t - s) / (1 - s), div_nonneg (by linarith) (le_of_lt h1s),
+          (div_le_one h1s).mpr (by linarith [htm.2]), ?_⟩
+        unfold closestPoint; rw [← ht, hP]
+        ext <;> simp <;> field_simp <;> ring
+    obtain ⟨u, hu0, hu1, hue⟩ := hu
+    have := closestPoint_opt q P (b - P) u hu0 hu1
+    rw [hue] at this
+    exact heq2 this
+  · intro hst
+    by_contra hnot
+    have hle := not_lt.mp hnot
+    have heq := heq1 hle
+    rw [e1, e0] at heq
+    have hne : t1 * s ≠ t := by
+      have : t1 * s ≤ s := by nlinarith
+      intro h; linarith
+    have hz := smul_eq_smul_cancel a (b - a) _ _ heq hne
+    have := closestT_zero_vec q a (b - a) hz
+    rw [← ht] at this
+    linarith
+  · intro hts hnz
+    by_contra hnot
+    have hle := not_lt.mp hnot
+    have heq := heq2 hle
+    rw [e2, e0] at heq
+    have hne : s + t2 * (1 - s) ≠ t := by
+      have : 0 ≤ t2 * (1 - s) := mul_nonneg ht2m.1 (sub_nonneg.mpr hs1)
+      intro h; linarith
+    exact hnz (smul_eq_smul_cancel a (b - a) _ _ heq hne)
+
+/-! ### cutting the closing edge: the second half becomes row 0, the first half the last row -/
+
+theorem FirstMin.split_closing (pre : List (Cand K)) (c c1 c2 : Cand K) {k : Nat} {x : Cand K}
+    (h : FirstMin (pre ++ [c]) k x) (h1 : c.dist ≤ c1.dist) (h2 : c.dist ≤ c2.dist) :
+    (k < pre.length → x.dist < c.dist → FirstMin (c2 :: pre ++ [c1]) (k + 1) x) ∧
+    (k = pre.length → c2.dist = c.dist → FirstMin (c2 :: pre ++ [c1]) 0 c2) ∧
+    (k = pre.length → c.dist < c2.dist → c1.dist = c.dist → FirstMin (c2 :: pre ++ [c1]) (pre.length + 1) c1) := by
+  obtain ⟨hk, hmin, hfirst⟩ := h
+  have hc : x.dist ≤ c.dist := hmin c (by simp)
+  have g0 : (pre ++ [c])[pre.length]? = some c := by
+    rw [List.getElem?_append_right (le_refl _)]; simp
+  have hmin' : ∀ y ∈ c2 :: pre ++ [c1], x.dist ≤ y.dist := by
+    intro y hy
+    simp only [List.cons_append, List.mem_cons, List.mem_append, List.not_mem_nil, or_false] at hy
+    rcases hy with rfl | hy | rfl
+    · exact le_trans hc h2
+    · exact hmin y (by simp [hy])
+    · exact le_trans hc h1
+  refine ⟨?_, ?_, ?_⟩
+  · intro hlt hxc
+    refine ⟨?_, hmin', ?_⟩
+    · rw [List.getElem?_append_left hlt] at hk
+      simp only [List.cons_append, List.getElem?_cons_succ]
+      rw [List.getElem?_append_left hlt]; exact hk
+    · intro j y hj hy
+      cases j with
+      | zero =>
+        simp only [List.cons_append, List.getElem?_cons_zero, Option.some.injEq] at hy
+        rw [← hy]; exact lt_of_lt_of_le hxc h2
+      | succ j =>
+        simp only [List.cons_append, List.getElem?_cons_succ] at hy
+        have hj' : j < k := by omega
+        rw [List.getElem?_append_left (by omega)] at hy
+        apply hfirst j y hj'
+        rw [List.getElem?_append_left (by omega)]; exact hy
+  · intro he hd
+    subst he
+    have hxc : x = c := Option.some.inj (hk.symm.trans g0)
+    subst hxc
+    refine ⟨by simp, ?_, ?_⟩
+    · intro y hy; rw [hd]; exact hmin' y hy
+    · intro j y hj; omega
+  · intro he hd2 hd1
+    subst he
+    have hxc : x = c := Option.some.inj (hk.symm.trans g0)
+    subst hxc
+    refine ⟨?_, ?_, ?_⟩
+    · simp only [List.cons_append, List.getElem?_cons_succ]
+      rw [List.getElem?_append_right (le_refl _)]; simp
+    · intro y hy; rw [hd1]; exact hmin' y hy
+    · intro j y hj hy
+      rw [hd1]
+      cases j with
+      | zero =>
+        simp only [List.cons_append, List.getElem?_cons_zero, Option.some.injEq] at hy
+        rw [← hy]; exact hd2
+      | succ j =>
+        simp only [List.cons_append, List.getElem?_cons_succ] at hy
+        have hj' : j < pre.length := by omega
+        rw [List.getElem?_append_left hj'] at hy
+        apply hfirst j y hj'
+        rw [List.getElem?_append_left hj']; exact hy
+
+section lists2
+variable {K : Type}
+
+/-- the segment list of a closed polyline ends with the closing edge `(last, first)`; putting a new vertex `P` in
+    front of the vertex list (i.e. on the closing edge) turns it into `(P, first) :: … ++ [(last, P)]` -/
+theorem segments_split_closing (v : List (V3 K)) (hv : v ≠ []) (P : V3 K) :
+    ∃ pre l f, pre.length + 1 = v.length ∧ v.head? = some f ∧ v.getLast? = some l ∧
+      (⟨v, true⟩ : Polyline K).segments = pre ++ [(l, f)] ∧
+      (⟨P :: v, true⟩ : Polyline K).segments = (P, f) :: pre ++ [(l, P)] := by
+  obtain ⟨f, rest, rfl⟩ := List.exists_cons_of_ne_nil hv
+  obtain ⟨ini, l, hil⟩ : ∃ ini l, f :: rest = ini ++ [l] :=
+    ⟨(f :: rest).dropLast, (f :: rest).getLast (by simp), (List.dropLast_append_getLast _).symm⟩
+  have hlen : ini.length = rest.length := by
+    have := congrArg List.length hil
+    simp at this; omega
+  refine ⟨List.zip ini rest, l, f, ?_, rfl, ?_, ?_, ?_⟩
+  · simp [List.length_zip, hlen]
+  · rw [hil]; simp
+  · simp only [Polyline.segments, if_true]
+    rw [hil, List.zip_append hlen]
+    simp
+  · simp only [Polyline.segments, if_true]
+    have h2 : f :: rest ++ [P] = f :: (rest ++ [P]) := rfl
+    rw [h2]
+    simp only [List.zip_cons_cons]
+    rw [hil, List.zip_append hlen]
+    simp
+
+theorem list_split_two {α : Type} (v : List α) (i : Nat) (h : i + 1 < v.length) :
+    ∃ p' x y s', p'.length = i ∧ v = p' ++ x :: y :: s' ∧ p' = v.take i ∧ s' = v.drop (i + 2) := by
+  refine ⟨v.take i, v[i], v[i + 1], v.drop (i + 2), ?_, ?_, rfl, rfl⟩
+  · simp; omega
+  · have h1 : v.drop i = v[i] :: v.drop (i + 1) := List.drop_eq_getElem_cons (by omega)
+    have h2 : v.drop (i + 1) = v[i + 1] :: v.drop (i + 2) := List.drop_eq_getElem_cons h
+    rw [← h2, ← h1, List.take_append_drop]
+
+theorem indexOfVertex_insert_error {K : Type} [LT K] [LE K] [DecidableLT K] [DecidableLE K] [Sub K] [Neg K] [OfNat K 0]
+    (vs : List (V3 K)) (e : Nat) (P p : V3 K) (atol : K)
+    (h1 : indexOfVertex vs p atol = .error .ValueError) (h2 : vertexMatches p atol P = false) :
+    indexOfVertex (insertBefore vs e P) p atol = .error .ValueError := by
+  unfold indexOfVertex at h1 ⊢
+  cases hf : vs.findIdx? (vertexMatches p atol) with
+  | some k => rw [hf] at h1; cases h1
+  | none =>
+    have hnone := List.findIdx?_eq_none_iff.mp hf
+    have : (insertBefore vs e P).findIdx? (vertexMatches p atol) = none := by
+      apply List.findIdx?_eq_none_iff.mpr
+      intro x hx
+      unfold insertBefore at hx
+      simp only [List.mem_append, List.mem_cons] at hx
+      rcases hx with hx | rfl | hx
+      · exact hnone x (List.mem_of_mem_take hx)
+      · exact h2
+      · exact hnone x (List.mem_of_mem_drop hx)
+    rw [this]
+
+end lists2
+
+/-! ### `flipped()`: segments of the reversed vertex list -/
+
+section flip
+variable {K : Type}
+
+theorem segments_get_open (v : List (V3 K)) (k : Nat) (sg : V3 K × V3 K) :
+    (⟨v, false⟩ : Polyline K).segments[k]? = some sg ↔ v[k]? = some sg.1 ∧ v[k + 1]? = some sg.2 := by
+  cases v with
+  | nil => simp [Polyline.segments]
+  | cons a rest =>
+    simp only [Polyline.segments, Bool.false_eq_true, if_false]
+    rw [List.getElem?_zip_eq_some, List.getElem?_cons_succ]
+
+theorem segments_get_closed (v : List (V3 K)) (k : Nat) (sg : V3 K × V3 K) :
+    (⟨v, true⟩ : Polyline K).segments[k]? = some sg ↔
+      v[k]? = some sg.1 ∧ ((k + 1 < v.length ∧ v[k + 1]? = some sg.2) ∨ (k + 1 = v.length ∧ v[0]? = some sg.2)) := by
+  cases v with
+  | nil => simp [Polyline.segments]
+  | cons a rest =>
+    simp only [Polyline.segments, if_true]
+    rw [List.getElem?_zip_eq_some]
+    constructor
+    · rintro ⟨h1, h2⟩
+      refine ⟨h1, ?_⟩
+      have hk : k < (a :: rest).length := (List.getElem?_eq_some_iff.mp h1).1
+      simp only [List.length_cons] at hk
+      rcases Nat.lt_or_ge k rest.length with h | h
+      · left
+        rw [List.getElem?_append_left h] at h2
+        exact ⟨by simp only [List.length_cons]; omega, by rw [List.getElem?_cons_succ]; exact h2⟩
+      · right
+        have hke : k = rest.length := by omega
+        subst hke
+        rw [List.getElem?_append_right (le_refl _)] at h2
+        simp only [Nat.sub_self, List.getElem?_cons_zero] at h2
+        exact ⟨by simp, by simpa using h2⟩
+    · rintro ⟨h1, h2⟩
+      refine ⟨h1, ?_⟩
+      rcases h2 with ⟨hk, h2⟩ | ⟨hk, h2⟩
+      · simp only [List.length_cons] at hk
+        rw [List.getElem?_append_left (by omega)]
+        rw [List.getElem?_cons_succ] at h2; exact h2
+      · simp only [List.length_cons] at hk
+        have hke : k = rest.length := by omega
+        subst hke
+        rw [List.getElem?_append_right (le_refl _)]
+        simpa using h2
+
+/-- the index of the flipped polyline's segment that is segment `k` run backwards: the closing edge stays the closing
+    edge, inner segment `k` becomes `n − 2 − k` -/
+def flipIdx (closed : Bool) (n k : Nat) : Nat := if closed = true ∧ k + 1 = n then k else n - 2 - k
+
+/-- segment `k` of the flipped polyline is segment `flipIdx k` of the polyline, run backwards -/
+theorem flipped_segment (pl : Polyline K) (k : Nat) (sg : V3 K × V3 K)
+    (h : (flipped pl).segments[k]? = some sg) :
+    pl.segments[flipIdx pl.closed pl.v.length k]? = some (sg.2, sg.1) ∧
+    k < (if pl.closed then pl.v.length else pl.v.length - 1) := by
+  obtain ⟨v, c⟩ := pl
+  unfold flipped at h
+  simp only at h ⊢
+  unfold flipIdx
+  cases c
+  · simp only [Bool.false_eq_true, false_and, if_false]
+    rw [segments_get_open] at h ⊢
+    obtain ⟨h1, h2⟩ := h
+    have hk : k + 1 < v.length := by
+      have := (List.getElem?_eq_some_iff.mp h2).1
+      simpa using this
+    rw [List.getElem?_reverse (by omega)] at h1 h2
+    have e1 : v.length - 1 - (k + 1) = v.length - 2 - k := by omega
+    have e2 : v.length - 2 - k + 1 = v.length - 1 - k := by omega
+    rw [e1] at h2
+    rw [e2]
+    exact ⟨⟨h2, h1⟩, by omega⟩
+  · simp only [true_and, if_true]
+    rw [segments_get_closed] at h ⊢
+    obtain ⟨h1, h2⟩ := h
+    have hk : k < v.length := by
+      have := (List.getElem?_eq_some_iff.mp h1).1
+      simpa using this
+    rw [List.getElem?_reverse hk] at h1
+    simp only [List.length_reverse] at h2
+    rcases h2 with ⟨hk1, h2⟩ | ⟨hk1, h2⟩
+    · rw [List.getElem?_reverse hk1] at h2
+      rw [if_neg (by omega)]
+      have e1 : v.length - 1 - (k + 1) = v.length - 2 - k := by omega
+      have e2 : v.length - 2 - k + 1 = v.length - 1 - k := by omega
+      rw [e1] at h2
+      refine ⟨⟨h2, Or.inl ⟨by omega, by rw [e2]; exact h1⟩⟩, hk⟩
+    · rw [List.getElem?_reverse (by omega)] at h2
+      rw [if_pos hk1]
+      have e1 : v.length - 1 - k = 0 := by omega
+      have e2 : v.length - 1 - 0 = k := by omega
+      rw [e1] at h1
+      rw [e2] at h2
+      exact ⟨⟨h2, Or.inr ⟨hk1, h1⟩⟩, hk⟩
+
+theorem flipped_flipped' (pl : Polyline K) : flipped (flipped pl) = pl := by
+  unfold flipped; simp
+
+/-- conversely segment `i` of the polyline, run backwards, is segment `flipIdx i` of the flipped polyline -/
+theorem segment_of_flipped (pl : Polyline K) (i : Nat) (sg : V3 K × V3 K) (h : pl.segments[i]? = some sg) :
+    (flipped pl).segments[flipIdx pl.closed pl.v.length i]? = some (sg.2, sg.1) := by
+  have := (flipped_segment (flipped pl) i sg (by rw [flipped_flipped']; exact h)).1
+  simpa [flipped] using this
+
+end flip
+
+section revlists
+theorem rev_drop_idx {α : Type} (v : List α) (i : Nat) (hi : i + 1 ≤ v.length) :
+    v.reverse.drop (v.length - 1 - i) = (v.take (i + 1)).reverse := by
+  rw [List.drop_reverse]; congr 2; omega
+
+theorem rev_take_idx {α : Type} (v : List α) (j : Nat) (hj : j + 1 ≤ v.length) :
+    v.reverse.take (v.length - 1 - j) = (v.drop (j + 1)).reverse := by
+  rw [List.take_reverse]; congr 2; omega
+
+theorem rev_take_take {α : Type} (v : List α) (i j : Nat) (hji : j ≤ i) (hi : i + 1 ≤ v.length) :
+    ((v.take (i + 1)).reverse).take (i - j) = ((v.drop (j + 1)).take (i - j)).reverse := by
+  rw [List.take_reverse, List.length_take, Nat.min_eq_left hi, List.drop_take]
+  have e : i + 1 - (i - j) = j + 1 := by omega
+  rw [e]
+  congr 2
+  omega
+
+end revlists
+
 end PW.Nearest
